@@ -423,3 +423,4 @@ def watcher_one(vc, dest, known, timeslot, kind):
 
 watcher_one.shapes = lambda tier: [dict(dest=d, known=k, timeslot=ts, kind=kind) for d in (1, 2308155) for k in ([], [1], [1, 77]) for ts in (1, 2) for kind in ("data_header", "voice_header")]
 watcher_one.budget_s = 120
+one_burst.budget_s = 600
